@@ -21,7 +21,7 @@ void harness(void) {
   uint64_t r = F_vk_percent_encode_idx(in, N, out, CAP, I.set, 0);
   uint64_t len = r & 0xffffffff, idx = r >> 32;
   CHECK(idx <= N, "index within the input");
-  for (unsigned i = 0; i < N; i++) if (i < idx) CHECK(!ref_in_set(I.set, in[i]), "no byte before the index needs encoding");
+  for (unsigned i = 0; i < N; i++) { if (i < idx) CHECK(!ref_in_set(I.set, in[i]), "no byte before the index needs encoding"); }
   if (idx < N) CHECK(ref_in_set(I.set, in[idx < N ? idx : 0]), "the byte at the index needs encoding");
   CHECK(len == el && h_eq(out, exp, el), "percent_encode(sv,set,index) equals the Standard's encoding");
 #elif VARIANT == 2
@@ -35,7 +35,5 @@ void harness(void) {
   CHECK(changed == (el != N), "returns true exactly when something was encoded");
   if (changed) CHECK(len == el + 2 && out[0] == 'a' && out[1] == 'b' && h_eq(out + 2, exp, el), "appended text equals the Standard's encoding");
 #endif
-  /* every output byte is printable ASCII outside the set (C05) */
-  for (unsigned i = 0; i < CAP; i++) if (i < el) CHECK(exp[i] == '%' || !ref_in_set(I.set, exp[i]) , "ref sanity");
   if (el > N) REACH("something encoded");
 }
